@@ -267,6 +267,19 @@ def rule_base(ctx, kernels=None, rid='base'):
                 # single-output kernels store through any name
                 cands = found if len(exps) == 1 else []
             names = {c[1] for c in cands}
+            # the base point must be computed from zeroth input coefficients: a constant coefficient index other than 0
+            # inside the defining statement reads a higher-order coefficient
+            wrong_idx = []
+            for c_ in cands:
+                for n_ in ast.walk(c_[2]):
+                    if isinstance(n_, ast.Subscript) and isinstance(n_.ctx, ast.Load) and isinstance(n_.value, ast.Name) and n_.value.id.endswith('_data'):
+                        f0 = n_.slice.elts[0] if isinstance(n_.slice, ast.Tuple) and n_.slice.elts else n_.slice
+                        if isinstance(f0, ast.Constant) and isinstance(f0.value, int) and not isinstance(f0.value, bool) and f0.value != 0:
+                            wrong_idx.append(n_)
+            if wrong_idx:
+                r.bad(Finding(rid, _f(fi), 'slot%d:index' % slot, '%s computes the zeroth coefficient of output %d from `%s`, a higher-order coefficient of the '
+                                                                  'argument: `%s`' % (fi.qualname, slot, norm(wrong_idx[0]), norm(cands[0][2])[:90]), fi.file, wrong_idx[0].lineno))
+                continue
             if want in names or (want == 'absolute' and 'absolute' in names):
                 r.ok(construct='%s[%d]' % (k, slot), nontrivial=True,
                      sample='%s slot %d: base point computed by `%s`' % (k, slot, norm(cands[0][2])[:90]))
@@ -1481,6 +1494,186 @@ def rule_transpose_axes(ctx):
             r.bad(Finding('C13.transpose-axes', _f(fi), key, '_transpose permutes the axes of rank-%d data as %s, numpy.transpose of each (D,P) slice needs %s: `%s`'
                           % (n, perm, want, norm(v)[:70]), fi.file, ret.lineno))
     r.floor = 5
+    return r
+
+
+def rule_operand_order(ctx):
+    r = RuleResult('C02.operand-order', 'in the non-commutative operators (-, /, //, -=, /=) the left operand of every subtraction/division and the first '
+                                        'argument of the division kernels derives from `self`, the right one from the other operand - followed '
+                                        'through _broadcast_arrays (first result <- first argument) and local copies')
+    m = ctx.model
+    ops = ['__sub__', '__truediv__', '__floordiv__', '__isub__', '__itruediv__', '__add__', '__iadd__']
+    for name in ops:
+        fi = m.lookup_method('UTPM', name)
+        if fi is None:
+            r.unknown('UTPM.' + name, 'operator vanished')
+            continue
+        other = fi.params[1]
+        prov = {'self': {'self'}, other: {'rhs'}}
+
+        def pv(e):
+            out = set()
+            for n_ in ast.walk(e):
+                if isinstance(n_, ast.Name) and n_.id in prov:
+                    out |= prov[n_.id]
+            return out
+
+        n_sites = 0
+
+        def judge(left, right, node, what):
+            nonlocal n_sites
+            pl, pr = pv(left), pv(right)
+            if not pl or not pr or not (pl | pr) >= {'self', 'rhs'}:
+                return
+            n_sites += 1
+            if pl == {'rhs'} and pr == {'self'}:
+                r.bad(Finding('C02.operand-order', _f(fi), '%s:%s' % (name, what), 'UTPM.%s: the left operand of `%s` derives from `%s` and the right one from `self` '
+                                                                                   '(operands swapped)' % (name, norm(node)[:70], other), fi.file, node.lineno))
+            elif pl == {'self'} and pr == {'rhs'}:
+                r.ok(construct='%s@%d' % (name, node.lineno), nontrivial=True, sample='UTPM.%s: `%s` is (self-derived) op (%s-derived)' % (name, norm(node)[:60], other))
+
+        def sites(st):
+            nonlocal n_sites
+            for n_ in ast.walk(st):
+                if isinstance(n_, ast.BinOp) and isinstance(n_.op, (ast.Sub, ast.Div, ast.FloorDiv)):
+                    judge(n_.left, n_.right, n_, type(n_.op).__name__)
+                elif isinstance(n_, ast.AugAssign) and isinstance(n_.op, (ast.Sub, ast.Div, ast.FloorDiv)):
+                    judge(n_.target, n_.value, n_, 'aug' + type(n_.op).__name__)
+                elif isinstance(n_, ast.AugAssign) and isinstance(n_.op, ast.Add) and isinstance(n_.target, ast.Subscript) \
+                        and _first_index_is_zero(n_.target):
+                    # `z[0] += c[0]`: the constant operand meets coefficient 0 of the polynomial operand - not symmetric
+                    judge(n_.target, n_.value, n_, 'augAdd0')
+                elif isinstance(n_, ast.Call) and (dotted_name(n_.func) or '') in ('numpy.add', 'numpy.subtract', 'numpy.multiply', 'numpy.divide') \
+                        and name.startswith('__i') and any(k.arg == 'out' for k in n_.keywords):
+                    # in-place operator: the array written must be (a view of) self's data
+                    o_ = [k.value for k in n_.keywords if k.arg == 'out'][0]
+                    po = pv(o_)
+                    if po:
+                        n_sites += 1
+                        if po == {'rhs'}:
+                            r.bad(Finding('C02.operand-order', _f(fi), '%s:out' % name, 'UTPM.%s writes its result into `%s`, which derives from `%s`, not from self'
+                                          % (name, norm(o_), other), fi.file, n_.lineno))
+                        else:
+                            r.ok(construct='%s:out@%d' % (name, n_.lineno), sample='UTPM.%s writes into `%s` (self-derived)' % (name, norm(o_)))
+                elif isinstance(n_, ast.Call) and isinstance(n_.func, ast.Attribute) and n_.func.attr in ('_truediv', '_floordiv', '_itruediv') and len(n_.args) >= 2:
+                    judge(n_.args[0], n_.args[1], n_, n_.func.attr)
+
+        # one pass in source order: the branches of the operand-kind chain are exclusive and each (re)binds its locals
+        # before using them, so the provenance at a statement is the one established by the textually preceding bindings
+        simple = [st for st in walk_no_nested(fi.node) if isinstance(st, (ast.Assign, ast.AugAssign, ast.Return, ast.Expr))]
+        simple.sort(key=lambda st: (st.lineno, st.col_offset))
+        for st in simple:
+            sites(st)
+            if isinstance(st, ast.Assign):
+                t = st.targets[0]
+                v = st.value
+                if isinstance(t, (ast.Tuple, ast.List)) and isinstance(v, ast.Call) and (dotted_name(v.func) or '').split('.')[-1] in ('_broadcast_arrays', 'broadcast_arrays') \
+                        and len(v.args) == len(t.elts):
+                    for e_, a_ in zip(t.elts, v.args):
+                        if isinstance(e_, ast.Name):
+                            prov[e_.id] = set(pv(a_))
+                elif isinstance(t, ast.Name):
+                    if isinstance(v, ast.Call) and (dotted_name(v.func) or '').split('.')[-1] in ('promote_types', 'result_type', 'zeros', 'empty', 'zeros_like', 'empty_like', 'shape'):
+                        prov[t.id] = set()
+                    else:
+                        prov[t.id] = pv(v)
+                elif isinstance(t, ast.Subscript):
+                    b_ = t.value
+                    while isinstance(b_, (ast.Subscript, ast.Attribute)):
+                        b_ = b_.value
+                    if isinstance(b_, ast.Name) and b_.id not in ('self',):
+                        prov[b_.id] = prov.get(b_.id, set()) | pv(v)
+        if n_sites == 0:
+            r.unknown(fi.site(), 'no subtraction/division between operand-derived values found')
+    r.floor = 8
+    return r
+
+
+SELECTORS = {'argmax', 'argmin', 'argsort', 'nonzero', 'flatnonzero', 'where', 'searchsorted', 'argwhere'}
+
+
+def rule_select_zeroth(ctx):
+    r = RuleResult('C10.select-zeroth', 'data-dependent selections in the forward kernels (numpy.argmax / argmin / argsort / where / nonzero ...) look at zeroth '
+                                        'coefficients only: which element is the maximum, which entries are zero, is decided at the base point like '
+                                        'NumPy would decide it for the values')
+    m = ctx.model
+    ci = m.cls('RawAlgorithmsMixIn')
+    if ci is None:
+        raise AnalysisError('C10.select-zeroth', ALGO, 'class RawAlgorithmsMixIn vanished')
+    n = 0
+    for name, fi in sorted(ci.methods.items()):
+        if name.startswith('_pb_') or name.endswith('_pullback'):
+            continue
+        for c in walk_no_nested(fi.node):
+            if not (isinstance(c, ast.Call) and (dotted_name(c.func) or '').split('.')[-1] in SELECTORS and (dotted_name(c.func) or '').split('.')[0] in ('numpy', 'scipy')):
+                continue
+            subs = [s_ for a in list(c.args) + [k.value for k in c.keywords] for s_ in ast.walk(a)
+                    if isinstance(s_, ast.Subscript) and isinstance(s_.value, ast.Name) and s_.value.id.endswith('_data')]
+            for s_ in subs:
+                f0 = s_.slice.elts[0] if isinstance(s_.slice, ast.Tuple) and s_.slice.elts else s_.slice
+                n += 1
+                if isinstance(f0, ast.Constant) and f0.value == 0 and f0.value is not False:
+                    r.ok(construct='%s:%s' % (fi.qualname, norm(c)[:50]), sample='%s: `%s` selects on the zeroth coefficient' % (fi.qualname, norm(c)[:70]))
+                elif isinstance(f0, ast.Constant) and isinstance(f0.value, int):
+                    r.bad(Finding('C10.select-zeroth', _f(fi), norm(c)[:80], '%s selects with `%s` on coefficient %d of `%s`, not on the zeroth coefficient'
+                                  % (fi.qualname, norm(c)[:60], f0.value, s_.value.id), fi.file, c.lineno))
+                else:
+                    r.unknown(fi.site(c), 'selection `%s` on a non-constant coefficient index' % norm(c)[:60])
+    r.floor = 3
+    return r
+
+
+def rule_wrap_order(ctx):
+    r = RuleResult('C-wrap-order', 'a UTPM method hands its operands to a kernel in the kernel\'s parameter order: no operand is passed at the position '
+                                   'of a parameter that carries the name of another operand of the same call (x/y, l/Q, a/b, a_min/a_max swapped)')
+    m = ctx.model
+    cu, ca = m.cls('UTPM'), m.cls('RawAlgorithmsMixIn')
+    if cu is None or ca is None:
+        raise AnalysisError('C-wrap-order', UTPM_MOD, 'class vanished')
+
+    def stem(e):
+        while isinstance(e, ast.Subscript):
+            e = e.value
+        if isinstance(e, ast.Attribute) and e.attr == 'data' and isinstance(e.value, ast.Name):
+            return e.value.id.lower()
+        if isinstance(e, ast.Name):
+            return e.id.lower()
+        return None
+
+    n = 0
+    for name, fi in sorted(cu.methods.items()):
+        if name.startswith('pb_'):
+            continue
+        for c in walk_no_nested(fi.node):
+            if not (isinstance(c, ast.Call) and isinstance(c.func, ast.Attribute) and isinstance(c.func.value, ast.Name)
+                    and c.func.value.id in ('cls', 'self', 'UTPM') and c.func.attr.startswith('_') and not c.func.attr.startswith('__')):
+                continue
+            k = ca.methods.get(c.func.attr)
+            if k is None or any(isinstance(a, ast.Starred) for a in c.args):
+                continue
+            kparams = k.value_params()
+            kstems = [(p_[:-5] if p_.endswith('_data') else p_).lower() for p_ in kparams]
+            probs = []
+            passed = [stem(a) for a in c.args]
+            for i, st in enumerate(passed):
+                if st is None or i >= len(kstems):
+                    continue
+                if st in kstems and kstems.index(st) != i and kstems[i] != st and kstems[i] in passed:
+                    probs.append('passes `%s` as argument %d of %s, whose parameter %d is `%s` and whose `%s` is parameter %d'
+                                 % (norm(c.args[i]), i, k.name, i, kparams[i], st, kstems.index(st)))
+            # kinds: a `.data` array handed to a scalar parameter while a plain name goes to a `*_data` parameter
+            for i, a in enumerate(c.args):
+                if i < len(kparams) and isinstance(a, ast.Attribute) and a.attr == 'data' and not kparams[i].endswith('_data') and kparams[i] not in ('out', 'work'):
+                    for j, b in enumerate(c.args):
+                        if j < len(kparams) and j != i and isinstance(b, ast.Name) and kparams[j].endswith('_data'):
+                            probs.append('passes the array `%s` for the scalar parameter `%s` and the plain argument `%s` for the array parameter `%s`'
+                                         % (norm(a), kparams[i], b.id, kparams[j]))
+            n += 1
+            if probs:
+                r.bad(Finding('C-wrap-order', _f(fi), '%s->%s' % (name, k.name), 'UTPM.%s %s' % (name, probs[0]), fi.file, c.lineno))
+            else:
+                r.ok(construct='%s->%s@%d' % (name, k.name, n), sample='UTPM.%s -> %s(%s)' % (name, k.name, ', '.join(norm(a) for a in c.args)[:60]))
+    r.floor = 60
     return r
 
 
